@@ -115,6 +115,13 @@ func runC16(c *core.Ctx) {
 								s.what+" consulted on a path from block execution: "+strings.Join(ir.PathTo(reach, f), " → "))
 						}
 					}
+					// the header chain a node has downloaded runs ahead of block execution and is not part
+					// of the prior state: reading it makes the result depend on sync progress
+					if o := ir.CalleeObj(x); o != nil && (o.Name() == "GetCurrentHeaderHeight" || o.Name() == "GetCurrentHeaderHash") && o.Pkg() != nil && strings.HasPrefix(o.Pkg().Path(), ir.Mod+"/core/") {
+						hits++
+						c.Violate("C16.no-sync-progress", f, "ledger."+o.Name(), c.P.Rel(x.Pos()),
+							"header-sync progress of this node consulted on a path from block execution: "+strings.Join(ir.PathTo(reach, f), " → "))
+					}
 					// rand.New(rand.NewSource(x)) with non-constant seed
 					if ir.IsPkgFunc(x, "math/rand", "NewSource") {
 						if _, ok := ir.ConstInt(x.Common().Args[0]); !ok {
